@@ -506,7 +506,7 @@ def gen_export_cases(ck):
         cases.append(ec.random_walk(rng, k, rng.choice([3, 4, 6, 10]), fam, guarded=ec.structure_guard))
     items = [(c, "new") for c in cases if any(o[0] == "ObsExport" for o in c[1])]
     # flat documents made by PSDImage.frompil(RGBA): first layer in / last layer out, exports in between
-    for kk in range(5):
+    for kk in range(6):
         for tail in ([], [("DeleteLayer", 1)], [("DeleteLayer", 1), ("ObsExport", 0, kk)], [("SetVisible", 1, False)],
                      [("Append", 0, 2), ("Remove", 0, 1), ("Pop", 0, 0), ("ObsExport", 0, kk)]):
             items.append(((8, [("Append", 0, 1), ("ObsExport", 0, kk)] + tail), "frompil-rgba"))
@@ -516,6 +516,12 @@ def gen_export_cases(ck):
                                                          "ObsExport", "ObsExport", "ObsExport"], guarded=ec.structure_guard)
         if any(o[0] == "ObsExport" for o in c[1]):
             items.append((c, "frompil-rgba"))
+    # composite with a layer_filter on groups with hidden content (a hidden member, a hidden group), then ask bbox / size
+    for hide in (("SetVisible", 3, False), ("SetVisible", 2, False), ("SetVisible", 4, False), ("SetVisible", 1, False)):
+        for tgt in (0, 1, 2):
+            for kk in (5, 2):
+                items.append(((1, [hide, ("ObsExport", tgt, kk), ("ObsBbox", 2), ("ObsBbox", 1), ("ObsSize", 1), ("ObsRepr", 2)]), "new"))
+                items.append(((1, [hide, ("ObsBbox", 1), ("ObsExport", tgt, kk), ("SetVisible", hide[1], True), ("ObsBbox", 2), ("ObsBbox", 1)]), "new"))
     # documents whose last clipping layer goes away (scenes 6 and 2)
     for kk in (0, 2, 3):
         for ops in ([("DeleteLayer", 3)], [("MoveToGroup", 3, 1)], [("SetClip", 3, False)], [("Pop", 0, -1)]):
